@@ -480,13 +480,21 @@ func getRound(n float64) float64 {
 		return n
 	}
 
-	if n < -0.5 {
-		n = float64(int(n - 0.5))
-	} else if n > 0.5 {
-		n = float64(int(n + 0.5))
-	} else {
-		n = 0
+	if math.Signbit(n) {
+		r := math.Ceil(n)
+
+		if r-n >= 0.5 {
+			r--
+		}
+
+		return r
 	}
 
-	return n
+	r := math.Floor(n)
+
+	if n-r >= 0.5 {
+		r++
+	}
+
+	return r
 }
